@@ -52,6 +52,7 @@ def parseAct (s : String) : Option (Option Act) :=
   | ["nop"] => some none
   | ["qb", c] => c.toNat?.map (fun c => some (.queueBatched c))
   | ["qd", c] => c.toNat?.map (fun c => some (.queueDirect c))
+  | ["qu", c] => c.toNat?.map (fun c => some (.queueUnsendable c))
   | ["cx", c] => c.toNat?.map (fun c => some (.cancel c))
   | ["w", w, l, r] => do
     let w ← parseWho w; let r ← parseIO r
@@ -119,6 +120,7 @@ def monitors (model : String) (steps : List (String × Obs)) (cancelled : List N
     match a.splitOn ":" with
     | ["qb", c] => c.toNat?
     | ["qd", c] => c.toNat?
+    | ["qu", c] => c.toNat?
     | _ => none)
   match steps.getLast? with
   | none => none
@@ -137,7 +139,7 @@ def monitors (model : String) (steps : List (String × Obs)) (cancelled : List N
               | (a, o) :: rest =>
                 let bad := match prev, a.splitOn ":" with
                   | some p, [k, c] =>
-                    if (k = "qb" || k = "qd") && p.done then
+                    if (k = "qb" || k = "qd" || k = "qu") && p.done then
                       match c.toNat? with
                       | some c => !cancelled.contains c && countOf o c = 0
                       | none => false
